@@ -287,6 +287,9 @@ func alphabet() []op {
 	for id := uint32(1); id <= 4; id++ {
 		a = append(a, op{kind: "ready", id: id}, op{kind: "unregister", id: id})
 		a = append(a, op{kind: "update", id: id, name: "a", eps: "tcp://y"}, op{kind: "update", id: id, name: "b", eps: "tcp://y"})
+		if id == 2 {
+			a = append(a, op{kind: "update", id: id, name: "", eps: "tcp://z"})
+		}
 	}
 	for _, n := range []string{"a", "b", "ServiceDirectory"} {
 		a = append(a, op{kind: "service", name: n})
@@ -606,8 +609,10 @@ func checkEvents(got []string) {
 
 // localRemote: the hosting process registers services locally (NewService /
 // Terminate, which bypass the mailbox) while a remote client registers too.
-func localRemote(fine bool) func() {
+func localRemote(fine bool, snipes ...bool) func() {
 	return func() {
+		snipe := len(snipes) > 0 && snipes[0]
+		sniped := map[uint32]bool{}
 		d := startDirectory()
 		p1, p2 := d.client(), d.client()
 		ev := d.watch()
@@ -629,8 +634,27 @@ func localRemote(fine bool) func() {
 				localID = svc.ServiceID()
 			}
 		})
+		ws := []*vrt.Thread{w1, w2}
+		if snipe {
+			// a remote client unregisters the identifier the local service is
+			// about to get (or has just got): whatever the outcome, its
+			// serviceRemoved event never precedes its serviceAdded event
+			ws = append(ws, vrt.GoWorker("remote-unregister", func() {
+				for _, id := range []uint32{2, 3} {
+					if p2.UnregisterService(id) == nil {
+						sniped[id] = true
+					}
+				}
+			}))
+		}
 		vrt.Quiesce()
-		fx.Settle(w1, w2)
+		fx.Settle(ws...)
+		ev.wireOrder()
+		if snipe {
+			checkEvents(ev.got)
+			vrt.Observe("snipe local=%s sniped=%v", localName, sniped)
+			return
+		}
 		if remoteErr == nil && readyErr != nil {
 			vrt.Failf("ready-refused", "serviceReady(%d) refused right after its registration: %v", remoteID, readyErr)
 		}
@@ -769,6 +793,8 @@ func init() {
 		Doc: "two remote clients: register(a), ready, unregister, services() each; history checked with porcupine against the registry", MustFlag: []string{"both-registered-in-turn", "name-collision-refused"}})
 	reg.Register(&reg.Scenario{Property: "C15", Name: "local-vs-remote", Body: localRemote(false), Quick: 1, Thorough: 2,
 		Doc: "remote register+ready of a || local Server.NewService(a|c) + Terminate", MustFlag: []string{"both-registered"}})
+	reg.Register(&reg.Scenario{Property: "C15", Name: "local-vs-remote-unregister", Body: localRemote(true, true), Quick: 2, Thorough: 3,
+		Doc: "as local-vs-remote (statement level) while another remote client unregisters identifiers 2 and 3: no serviceRemoved event precedes the serviceAdded event of the same identifier on the subscriber's connection, each at most once"})
 	reg.Register(&reg.Scenario{Property: "C15", Name: "local-vs-remote-statement-level", Body: localRemote(true), Quick: 1, Thorough: 2,
 		Doc: "same with bus/directory/directory.go interleaved at statement level (the local path bypasses the mailbox)"})
 }
